@@ -85,7 +85,7 @@ def kindRt (k : String) : Rt :=
 
 def rtKind : Rt → String
   | .ok s => "ok" ++ toString s | .connect => "connect" | .write | .writeT => "write" | .rhdr => "rhdr"
-  | .timeout => "timeout" | .broken => "broken" | .other => "other"
+  | .timeout => "timeout" | .broken => "broken" | .other => "other" | .panic => "panic"
 
 def cfgOf (p : TOp) : Cfg :=
   ⟨p.rm, 0, p.rl, 0, 0, 0, [⟨"a", 1, false, (List.range p.nb).map fun _ => ⟨true, 1⟩⟩]⟩
@@ -110,24 +110,30 @@ def runT (p : TOp) (impl : String) : String :=
       let connF := decTb lr.st.conn lr.st.tb
       let line := "r" ++ toString i ++ ":" ++ ",".intercalate evs ++
         ">res=" ++ (match lr.res with | some s => toString s | none => "nil") ++
+        -- reading the response body failed afterwards (observed; nothing may be resent then)
+        (if ((steps.getD i "").splitOn "~bodyerr").length > 1 then "~bodyerr" else "") ++
         ",err=" ++ lr.err.str ++ ",act=" ++ toString lr.act ++ ";rt=" ++ toString lr.st.retry ++
         ";cn=" ++ renderConn cfg connF
       go { g with bs := lr.st.bs, conn := connF } (i + 1) rest (line :: acc)
   " | ".intercalate (go (G.init cfg 0) 0 p.reqs [])
 
-def judgeAtts : List TAtt → Nat → Option String
+/-- `rl`, `isGET`, `len` of the request: an attempt followed by another one must have failed with a connect error,
+    or with any error when RetryLevel = 1 and the request is a body-less GET; never after a response -/
+def judgeAtts (rl : Nat) (isGET : Bool) (len : Nat) : List TAtt → Nat → Option String
   | [], _ => none
   | a :: rest, j =>
     if j > 0 && a.start > 0 then some "resend-after-body-consumed"
     else if a.kind == "connect" && a.delta > 0 then some "connect-error-after-body-bytes"
-    else judgeAtts rest (j + 1)
+    else if !rest.isEmpty && a.kind.startsWith "ok" then some "resend-after-response"
+    else if !rest.isEmpty && a.kind != "connect" && !(rl == 1 && isGET && len == 0) then some ("resend-after-" ++ a.kind)
+    else judgeAtts rl isGET len rest (j + 1)
 
-def verdictT (impl : String) : String :=
+def verdictT (p : TOp) (impl : String) : String :=
   if impl == "HANG" then "FAIL:tr-hang" else
   match (impl.splitOn " | ").mapM implAtts with
   | none => "FAIL:unparsable"
   | some all =>
-    match all.findSome? fun atts => judgeAtts atts 0 with
+    match (all.zip p.reqs).findSome? fun (atts, r) => judgeAtts p.rl r.isGET r.len atts 0 with
     | some c => "FAIL:" ++ c
     | none => "ok"
 
@@ -138,11 +144,14 @@ def tagsT (p : TOp) (impl : String) : List String :=
   (if flat.any fun a => a.kind == "write" && a.delta > 0 then ["tr-write-midbody"] else []) ++
   (if flat.any fun a => a.kind == "write" && a.delta == 0 then ["tr-write-nobody"] else []) ++
   (if flat.any fun a => a.kind == "connect" then ["tr-connect"] else []) ++
-  (if p.reqs.any fun r => r.len > 65536 then ["tr-bigbody"] else [])
+  (if p.reqs.any fun r => r.len > 65536 then ["tr-bigbody"] else []) ++
+  (if flat.any fun a => a.kind == "rhdr" then ["tr-rhdr"] else []) ++
+  (if flat.any fun a => a.kind == "timeout" then ["tr-timeout"] else []) ++
+  (if (impl.splitOn "~bodyerr").length > 1 then ["tr-body-truncated"] else [])
 
 def run (op impl : String) : Ans :=
   match parseTOp op with
   | none => { model := "bad-op", verdict := "skip" }
-  | some p => { model := runT p impl, verdict := verdictT impl, tags := tagsT p impl }
+  | some p => { model := runT p impl, verdict := verdictT p impl, tags := tagsT p impl }
 
 end BfeVerif.C08.Tr
